@@ -293,6 +293,15 @@ func (fx *FnCtx) execFunction(fn *ssa.Function, args []Val, bindings []Val, st *
 	// is not the one they were written for, they would be applied to the
 	// wrong loops - the proof then says nothing about this code (a function
 	// without any loop is still decided exactly: nothing is cut)
+	if isRoot && fr.spec != nil && len(fr.loops.ordered) == 0 && (fr.spec.LoopCount > 0 || len(fr.spec.Loops) > 0) {
+		// ... unless its loops have merely moved into a helper that is
+		// inlined below: then they run without the invariants written for them
+		fx.loopsExpected = true
+	}
+	if !isRoot && fx.loopsExpected && len(fr.loops.ordered) > 0 {
+		fx.loopsExpected = false
+		fx.bindErrors = append(fx.bindErrors, fmt.Sprintf("%s: the loops the function's loop contracts were written for have moved into the helper %s", path, fn.Name()))
+	}
 	if isRoot && fr.spec != nil && len(fr.loops.ordered) > 0 {
 		actual := len(fr.loops.ordered)
 		bad := fr.spec.LoopCount > 0 && fr.spec.LoopCount != actual
